@@ -68,6 +68,7 @@ type Knobs struct {
 	PNilOptArg  int // an op gets a nil / empty argument to an option constructor (FillXInfo(nil), WithXCallback(nil), As())
 	PCallback   int
 	PCBPanic    int // a callback panics on its first call
+	PCBInvoke   int // a callback calls Invoke for a consumer of its function's own keys
 	PDefer      int
 	PRecover    int
 	PHole       int // param for a key nobody provides (universe pick)
@@ -1053,10 +1054,30 @@ func (g *gen) genProvide(s int) Op {
 	}
 	// keep the predicted model in step
 	mf := NewMFn(f, op.O, KCtor, s)
+	if o.CB && !o.CBPanic && g.pct(g.k.PCBInvoke, "cbinvoke") {
+		o.CBInvoke = g.cbInvokeFor(mf)
+	}
 	if g.m.DupProvide(mf) == "" {
 		g.m.AddCtor(mf)
 	}
 	return op
+}
+
+// cbInvokeFor: a consumer of one of mf's own keys, invoked from mf's callback
+// in mf's home scope or below it.
+func (g *gen) cbInvokeFor(mf *MFn) *Reenter {
+	ks := mf.Keys()
+	if len(ks) == 0 {
+		return nil
+	}
+	k := ks[g.pick(len(ks), "cbik")]
+	sc := mf.Home
+	if g.pct(40, "cbibelow") {
+		if sub := g.m.Subtree(mf.Home); len(sub) > 0 {
+			sc = sub[g.pick(len(sub), "cbis")]
+		}
+	}
+	return &Reenter{S: sc, P: g.encodeParams([]pleaf{{key: k}})}
 }
 
 func (g *gen) genDecorate(s int) (Op, bool) {
@@ -1203,6 +1224,10 @@ func (g *gen) genDecorate(s int) (Op, bool) {
 		op.O = o
 	}
 	mf := NewMFn(f, nil, KDeco, s)
+	if o.CB && !o.CBPanic && g.pct(g.k.PCBInvoke, "cbinvoke") {
+		o.CBInvoke = g.cbInvokeFor(mf)
+		op.O = o
+	}
 	if g.m.DupDecorate(mf) == "" {
 		if g.k.AvoidDecoCycle {
 			// tentatively add, check for a decorator cycle from every
